@@ -56,16 +56,22 @@ pub fn on_fresh_thread_salted<R: Send + 'static>(
     f: impl FnOnce() -> R + Send + 'static,
 ) -> Result<R, String> {
     on_fresh_thread(hash_seed, stack_mb, move || {
+        // the salt allocations live for the duration of the run (they shift every later
+        // allocation) and are released afterwards: a worker process that executes tens of
+        // thousands of salted runs must not accumulate them (a thorough C32 batch was OOM-killed
+        // at 4 GB per worker when they were leaked for good)
+        let mut salt_blocks: Vec<Vec<u8>> = Vec::new();
         if heap_salt != 0 {
             let mut r = Rng::new(heap_salt);
             let n = r.range(8, 64);
             for _ in 0..n {
                 let size = r.range(16, 4096) as usize;
-                let v: Vec<u8> = Vec::with_capacity(size);
-                std::mem::forget(v);
+                salt_blocks.push(Vec::with_capacity(size));
             }
         }
-        f()
+        let out = f();
+        drop(salt_blocks);
+        out
     })
 }
 
